@@ -26,6 +26,7 @@ TRUSTED = [
 ]
 
 TARGETS = ("sql.sqlite", "sql.generic")
+BASE_COLS = {c for cs in P.TABLES.values() for c in cs}
 
 
 # ------------------------------------------------------------------------------ cases
@@ -260,6 +261,9 @@ def classify_c06(rec):
             col = m.group(1)
             if has_let and re.search(r"\b%s = " % re.escape(col), prql) and "AS _expr_" in sql and not re.search(r"AS %s\b" % re.escape(col), sql):
                 return "F64-let-column-alias-lost"
+            if has_let and col in BASE_COLS and re.search(r"\bsort\b", prql) and \
+                    any(re.search(r"\b%s\b" % col, seg) for seg in re.findall(r"SELECT ((?:(?!SELECT).)*?) FROM r_\d+", sql)):
+                return "F68-let-sort-key-recomputed"
             mq = re.search(r"no such column: ([A-Za-z_0-9]+\._expr_\d+)", txt)
             if mq and re.search(r"\bsort\b", prql) and re.search(r"\bjoin\b", prql) and re.search(r"ORDER BY [^()]*%s\b" % re.escape(mq.group(1)), sql):
                 return "F67-sort-column-qualified-after-join"
@@ -373,7 +377,7 @@ def run():
     cases = []
     g = W.RGen(rng, max_steps=6)
     n_base = ck.n(320, 2500) * mult
-    n_chain2, n_chain3 = ck.n(3, 8), ck.n(3, 8)
+    n_chain2, n_chain3 = ck.n(2, 8), ck.n(2, 8)
     site_hist = {}
     for bi in range(n_base):
         pg = g.program()
@@ -383,15 +387,19 @@ def run():
         c = make_case(pg, insts)
         rp = W.from_program(pg)
         # depth 1: every applicable site of every kind
-        for lab, q in W.all_sites(rp, rng, func_per_slot=ck.n(3, 7), trfunc_per_site=ck.n(2, 5)):
+        for lab, q in W.all_sites(rp, rng, func_per_slot=ck.n(2, 7), trfunc_per_site=ck.n(1, 5), trfunc_maxlen=ck.n(2, 3)):
             k = W.kind_of(lab)
             if c.add(k, lab, q.prql(), q.coq() if k in ("filter", "identity") else None):
                 site_hist[k] = site_hist.get(k, 0) + 1
         # module moves need a declaration: every declaration produced by a let / function rewrite, moved
-        firsts = W.sites_let(rp, rng, ("let",))[:: max(1, len(rp.steps) // 2)] + W.sites_func(rp, rng, per_slot=1, variants=["pos", "named-pass", "piped"])[:2] \
-            + W.sites_trfunc(rp, rng, per_site=1, variants=["pos"])[:1]
+        l1 = W.sites_let(rp, rng, ("let",))
+        f1 = W.sites_func(rp, rng, per_slot=1, variants=["pos", "named-pass", "piped"])
+        t1_ = W.sites_trfunc(rp, rng, per_site=1, variants=["pos"], maxlen=2)
+        firsts = [rng.choice(x) for x in (l1, f1, t1_) if x] + ([rng.choice(l1)] if l1 else [])
+        if ck.thorough:
+            firsts = l1 + f1[:4] + t1_[:3]
         for lab, q in firsts:
-            for lab2, q2 in W.sites_module(q, rng):
+            for lab2, q2 in W.sites_module(q, rng, depth2=ck.thorough or rng.random() < 0.5):
                 c.add("module", lab + "+" + lab2, q2.prql())
         # compositions of 2 and 3 rewrites at random sites
         for _ in range(n_chain2):
@@ -406,7 +414,7 @@ def run():
 
     # two references to one let-table (append, self-join)
     g2 = W.RGen(rng, max_steps=4)
-    for _ in range(ck.n(120, 1200) * mult):
+    for _ in range(ck.n(90, 1200) * mult):
         pg = g2.program()
         insts = [P.gen_instance(rng, max_rows=5, min_rows=2), P.gen_instance(rng, max_rows=3, min_rows=0)]
         cases += two_ref_cases(pg, insts, rng)
